@@ -93,7 +93,7 @@ def discrete_stage(st, tier, seed, binary, tag, ncases=None, extra_cases=None, g
         return sg
     tcs = corr.parse_transcript(tr)
     sg.cases = len(tcs)
-    if len(tcs) != len(cases):
+    if len(tcs) != len(cases) and not any(t.hang for t in tcs):
         sg.errors.append('harness returned %d transcripts for %d cases' % (len(tcs), len(cases)))
     for tc in tcs:
         ev = nontrivial_events(tc)
@@ -190,7 +190,7 @@ def write_replay(prop, kind, payload):
     open(path, 'w').write(body)
     return path
 
-def shrink_case(lines, still_fails, budget=150):
+def shrink_case(lines, still_fails, budget=60):
     """delta debugging over the op lines of one case (header and END kept)"""
     head, ops, tail = lines[0], lines[1:-1], lines[-1]
     n = 2
@@ -215,7 +215,7 @@ def run_one_case(binary, lines, tag):
     path = os.path.join(build.BUILD, 'one_%s_%d.cases' % (tag, os.getpid()))
     gen.write_cases(path, [lines])
     try:
-        tcs = corr.parse_transcript(corr.run_harness(binary, path, timeout=120))
+        tcs = corr.parse_transcript(corr.run_harness(binary, path, timeout=120, case_ms=2000))
     except Exception:
         return None
     finally:
@@ -225,7 +225,7 @@ def run_one_case(binary, lines, tag):
 
 def oracle_fails(binary, lines, prop, tag):
     tc = run_one_case(binary, lines, tag)
-    return tc is not None and any(p == prop for p, _ in tc.x)
+    return tc is not None and any(p in (prop, '*') for p, _ in tc.x)
 
 def model_disagrees(binary, lines, st, tag):
     tc = run_one_case(binary, lines, tag)
@@ -334,7 +334,7 @@ def main(argv):
     binary = bins.get('debug') or bins.get('release')
     for s in stages:
         for p, msg, lines in s.failures:
-            if p != prop:
+            if p != prop and p != '*':
                 continue
             k = next(((kp, key, desc) for kp, key, desc in known if kp == prop and ('kf=' + key) in msg), None)
             if k:
@@ -401,7 +401,7 @@ def wider_search(prop, spec, seed, bins, tag):
             for s in sts:
                 searched += s.cases
                 for p, msg, lines in s.failures:
-                    if p == prop and not any(kp == prop and ('kf=' + key) in msg for kp, key, _ in load_known()[0]):
+                    if p in (prop, '*') and not any(kp == prop and ('kf=' + key) in msg for kp, key, _ in load_known()[0]):
                         binary = bins.get('debug') or bins.get('release')
                         small = lines
                         if lines and s.name.startswith('correspondence:'):
@@ -425,7 +425,7 @@ def replay(prop, path):
         print('harness could not run the case'); return 2
     for op, res, words in tc.ops:
         print('O', ' '.join(op), '=>', ' '.join(res))
-    bad = [m for p, m in tc.x if p == prop]
+    bad = [m for p, m in tc.x if p in (prop, '*')]
     for m in bad:
         print('X', prop, m)
     if bad:
